@@ -449,6 +449,8 @@ def shard_parseinfo(col, shard_i, ngrammars, ninputs):
             body = ('named', False, 'val', ('group', e)) if rng.random() < 0.7 else e
             if i > 0 and rng.random() < 0.3:
                 body = ('seq', [('named', False, 'opt', ('opt', ('tok', 'zz'))), body]) if rng.random() < 0.5 else ('named', False, 'opt', ('opt', ('tok', 'zz')))
+            if i > 0 and rng.random() < 0.3:
+                d = list(d) + ['nomemo']       # @nomemo rules take another path to their memo key (and so to parseinfo.pos)
             rules.append((n, d, body))
         g['rules'] = rules
         both = rng.random() < 0.6
